@@ -8,6 +8,7 @@ import (
 	"context"
 	"database/sql"
 	"fmt"
+	"regexp"
 	"runtime/debug"
 	"sort"
 	"strings"
@@ -498,7 +499,7 @@ func (c *Client) Step(label string) {
 func (w *World) CheckPanics() {
 	for _, c := range w.Clients {
 		if c.Panic != nil && w.Viol == nil {
-			w.Fail("panic", "client %s panicked: %v\n%s", c.Name, c.Panic, trimStack(c.PanicStack))
+			w.Fail(PanicClass(c.Panic), "client %s panicked: %v\n%s", c.Name, c.Panic, trimStack(c.PanicStack))
 		}
 	}
 }
@@ -647,4 +648,16 @@ func (c *Client) CreateSQL(name string, o TableOpts) string {
 		q += ", readonly"
 	}
 	return q + ")"
+}
+
+var panicNoise = regexp.MustCompile(`0x[0-9a-f]+|[0-9]+`)
+
+// PanicClass names a panic by its message (numbers removed), so that two
+// different panics are two different violation classes.
+func PanicClass(p interface{}) string {
+	msg := panicNoise.ReplaceAllString(fmt.Sprint(p), "N")
+	if len(msg) > 70 {
+		msg = msg[:70]
+	}
+	return "panic: " + msg
 }
